@@ -338,6 +338,8 @@ fn strategy_b(t: Tier) -> BoxedStrategy<CaseB> {
         1 => Just(RxB::Drain),
         2 => Just(RxB::Provision),
         1 => prop::collection::vec(any::<u8>(), 0..12).prop_map(RxB::Raw),
+        // zero padding: ends the frame (and with it the validity of the label in force)
+        1 => (2usize..6).prop_map(|n| RxB::Raw(vec![0u8; n])),
     ];
     bx(prop::collection::vec(op, 1..t.pick(30, 80)).prop_map(|ops| CaseB { ops }))
 }
@@ -395,7 +397,9 @@ fn check_b(c: &CaseB, st: &mut Stats) -> Result<(), String> {
                 b
             }
         };
+        let had_label = matches!(model.eff, Eff::Known(Some(_)));
         let seen = model.observe(&bytes, &mand_lookup);
+        st.class_if(had_label && matches!(seen, Seen::Padding), "padding-while-a-label-was-in-force");
         if let Eff::Known(Some(l)) = &model.eff {
             if last_known != Some(*l) {
                 label_changes += 1;
@@ -543,7 +547,7 @@ pub fn property() -> Property {
                 fuzz_decode: Some(crate::fuzzdec::c04b_case),
                 strategy: strategy_b,
                 check: check_b,
-                required_classes: &["re-use-start-packet", "re-use-rejected", "re-use-resolved", "re-use-after-malformed-input"],
+                required_classes: &["re-use-start-packet", "re-use-rejected", "re-use-resolved", "re-use-after-malformed-input", "padding-while-a-label-was-in-force"],
             }),
         ],
     }
